@@ -362,7 +362,8 @@ def _do_extract(res, repo_root, head, block, canary, tpl_path):
         # canary twins only for plain fns with bodies outside traits / trait impls
         segs = selector.split(' :: ')
         in_trait = any(sg.startswith('trait ') or (sg.startswith('impl') and ' for ' in sg) for sg in segs[:-1])
-        if not lastseg.startswith('fn ') or in_trait or any(d.kind == 'stub' for d in ds):
+        # `twin`: the template places this trait-impl fn in an inherent impl block (R11), so a renamed twin is legal there
+        if not lastseg.startswith('fn ') or (in_trait and not any(d.kind == 'twin' for d in ds)) or any(d.kind == 'stub' for d in ds):
             return
     ex.kind, _, ex.name = lastseg.partition(' ')
     if ex.kind.startswith('impl'):
@@ -564,7 +565,7 @@ def _do_extract(res, repo_root, head, block, canary, tpl_path):
                 m = re.search(r'\bfn\s+(\w+)', masked)
                 body_open = rscan.find_body_open(masked, m.end(), '{')
                 t.insert(body_open + 1, '\n' + '\n'.join(d.payload) + '\n')
-            elif d.kind in ('rw', 'ret', 'spec', 'derive', 'fnname', 'specfile', 'stub', 'attr'):
+            elif d.kind in ('rw', 'ret', 'spec', 'derive', 'fnname', 'specfile', 'stub', 'attr', 'twin'):
                 pass
             else:
                 raise ExtractError("%s:%d: unknown directive %s" % (tpl_path, d.lineno, d.kind))
